@@ -424,7 +424,7 @@ impl Property for C01 {
             .boxed()
     }
     fn cases(tier: Tier) -> u32 {
-        tier.pick(100_000, 400_000)
+        tier.pick(100_000, 1_600_000)
     }
     fn exhaustive(_tier: Tier, sink: &mut dyn FnMut(Scenario)) -> Vec<String> {
         let g = grid();
